@@ -8,7 +8,6 @@ def funcHashes : List (String × String) := [
   ("provider.IdentityProvider.loginResponse", "98152b496cd27d27"),
   ("provider.IdentityProvider.errorResponse", "36e97fa86262a93a"),
   ("provider.Response.sendBackResponse", "ce2f63a132d549be"),
-  ("provider.NewIdentityProvider", "d8b36fe2a888eaa3"),
   ("provider.createSignature", "c82c7fa2a02ee920"),
   ("provider.createPostSignature", "63abb0ce7bc8d709"),
   ("provider.createRedirectSignature", "28c3d516d478f83a"),
